@@ -37,6 +37,20 @@ Definition S_CFINISH := 13.  Definition S_RDCOEF := 14.   Definition S_WRCOEF :=
 Definition S_XTHROW := 16.   Definition S_MEMDEST := 17.  Definition S_NOIMAGE := 18.
 Definition S_RDCOEF2 := 19.  Definition S_CSTART2 := 20.   Definition S_POSTHDR2 := 21.
 
+(* ------------------------------------------------------------ jpeg_abort + memory accounting *)
+(* "mem->image_space": what total_space_allocated holds for image-pool objects (small blocks: module
+   structs; large blocks: sample / coefficient arrays).  jpeg_abort -> free_pool takes it back out, list by
+   list, as far as the regenerated facts say it does. *)
+Definition img_small (o : obj) : fld := (o, "mem->image_space_small").
+Definition img_large (o : obj) : fld := (o, "mem->image_space_large").
+Definition abortc (o : obj) : cmd :=
+  CSeq (CAbort o)
+       (CSeq (if free_pool_subtracts_small then CSet (img_small o) (EC 0) else CSkip)
+             (if free_pool_subtracts_large then CSet (img_large o) (EC 0) else CSkip)).
+(* modules allocated (small) / buffers and virtual arrays realised (large) *)
+Definition account (o : obj) : cmd :=
+  CSeq (CSet (img_small o) (EC 1)) (CSet (img_large o) (EC 1)).
+
 (* ------------------------------------------------------------ generated handlers *)
 Definition cond_expr (c : hcond) : expr :=
   match c with
@@ -57,8 +71,8 @@ Definition cmd_of_hstmt (h : hstmt) : cmd :=
   | HRetval c v => guarded c (CSet retval (EC v))
   | HGotoBailout c => guarded c (CGoto TBailout)
   | HReturn c => guarded c (CGoto TReturn)
-  | HAbortC c => guarded c (CAbort OC)
-  | HAbortD c => guarded c (CAbort OD)
+  | HAbortC c => guarded c (abortc OC)
+  | HAbortD c => guarded c (abortc OD)
   | HTermDest c => guarded c (CDest DTerm (EG allocv))
   | HWarnRet => CIf (EG warning) (CSet retval (EC (-1))) CSkip
   | HFree _ _ | HDestroyTmp _ | HFclose _ | HOther _ _ => CSkip
@@ -189,7 +203,7 @@ Definition set_decomp_parameters : cmd :=
 Definition header_or_tables (selfc : bool) (require_image : bool) (tables_case : cmd) : cmd :=
   CIf (EA "tables_only")
       (read_tables_only selfc ;;
-       (if require_image then CRaise (* JERR_NO_IMAGE *) else CAbort OD ;; tables_case))
+       (if require_image then CRaise (* JERR_NO_IMAGE *) else abortc OD ;; tables_case))
       (read_header selfc true false).
 
 (* --- tj3DecompressHeader ---------------------------------------------------- *)
@@ -201,14 +215,14 @@ Definition prog_header (fx : fixes) (selfc validargs : bool) : prog :=
       (if validargs then CSkip else throw S_ARGS) ;; CSetjmp 0 ;; CSet warning (EA "warn") ;;
       mem_src ;;
       (* F9 fix: an ICC profile extracted from a previous image does not belong to this one *)
-      (if fx9 fx then CSet (T "tempICCSize") (EC 0) else CSkip) ;;
+      (if fx9 fx then CSet (T "tempICCBuf") (EC 0) ;; CSet (T "tempICCSize") (EC 0) else CSkip) ;;
       CIf icc_wanted (CSet (D "marker->save_APP2") (EC 1)) CSkip ;;
       header_or_tables selfc false (CGoto TReturn) ;;
       set_decomp_parameters ;;
       CIf icc_wanted
-          (CIf (EA "has_icc") (CSet (T "tempICCSize") (EA "icc_id")) CSkip)
+          (CIf (EA "has_icc") (CSet (T "tempICCBuf") (EA "icc_id") ;; CSet (T "tempICCSize") (EA "icc_id")) CSkip)
           CSkip ;;
-      CAbort OD ;;
+      abortc OD ;;
       throw S_POSTHDR).
 
 (* --- jpeg_start_decompress / master_selection ------------------------------- *)
@@ -238,6 +252,7 @@ Definition master_selection (fx : fixes) (raw merged : bool) : cmd :=
   CIf (EAnd (EG (D "progressive_mode")) (ENot (EG (D "master->lossless")))) (CAlloc (D "coef_bits")) CSkip ;;
   CAlloc (D "coef") ;;
   (if raw then CSkip else CAlloc (D "main")) ;;
+  account OD ;;
   (* start_input_pass: per_scan_setup, latch_quant_tables, entropy start_pass *)
   CDeref (D "comp_info") ;; CDeref (D "entropy") ;; CDeref (D "coef") ;;
   stage S_START.
@@ -269,7 +284,7 @@ Definition skip_scanlines (fx : fixes) (merged : bool) : cmd :=
   seq (map (fun p => CDeref (D p)) ["main"; "coef"; "entropy"; "idct"; "post"; "upsample"]).
 
 Definition finish_decompress : cmd :=
-  stage S_FINISH ;; CSet (D "unread_marker") (EA "um_end") ;; CAbort OD.
+  stage S_FINISH ;; CSet (D "unread_marker") (EA "um_end") ;; abortc OD.
 
 (* --- tj3Decompress8/12/16 ---------------------------------------------------- *)
 Definition crop_set : expr :=
@@ -388,21 +403,24 @@ Definition prog_decode_yuv (fx : fixes) (merged : bool) : prog :=
       CObs "bottomUp" (P "bottomUp") ;; CObs "subsamp" (P "subsamp") ;;
       CDeref (D "upsample") ;; (if merged then CSkip else CDeref (D "cconvert")) ;;
       CObs "pixels" (EA "img") ;;
-      CAbort OD).
+      abortc OD).
 
 (* --- tj3GetICCProfile / tj3TransformBufSize / parameter setters ----------------- *)
 Definition prog_get_icc : prog :=
   mk "tj3GetICCProfile"
      (prologue ;; throw S_ARGS ;;
-      CObs "tempICCSize" (P "tempICCSize") ;;
-      CIf (EEq (P "tempICCSize") (EC 0)) (CSet warning (EC 1) ;; THROW) CSkip ;;
-      CIf (EA "fetch") (CSet (T "tempICCSize") (EC 0)) CSkip ;;
+      CObs "tempICCBuf" (P "tempICCBuf") ;; CObs "tempICCSize" (P "tempICCSize") ;;
+      CIf (EOr (EEq (P "tempICCBuf") (EC 0)) (EEq (P "tempICCSize") (EC 0))) (CSet warning (EC 1) ;; THROW) CSkip ;;
+      (* the size is deliberately retained for tj3TransformBufSize *)
+      CIf (EA "fetch") (CSet (T "tempICCBuf") (EC 0)) CSkip ;;
       CGoto TReturn).
 Definition prog_transform_bufsize : prog :=
   mk "tj3TransformBufSize"
      (prologue ;; throw S_ARGS ;;
       CObs "jpegWidth" (P "jpegWidth") ;; CObs "jpegHeight" (P "jpegHeight") ;; CObs "subsamp" (P "subsamp") ;;
-      CIf (EAnd icc_wanted (ENot (EA "copynone"))) (CObs "tempICCSize" (P "tempICCSize")) (CObs "iccSize" (P "iccSize"))).
+      CIf (EAnd icc_wanted (ENot (EA "copynone")))
+          (CObs "tempICCSize" (P "tempICCSize") ;; CIf (EEq (P "tempICCSize") (EC 0)) (CObs "iccSize" (P "iccSize")) CSkip)
+          (CObs "iccSize" (P "iccSize"))).
 
 Definition need_ok (n : pneed) : expr :=
   match n with NeedNone => EC 1 | NeedC => P "initC" | NeedD => P "initD" end.
@@ -491,6 +509,7 @@ Definition compress_master (raw : bool) : cmd :=
   master_control ;;
   (if raw then CSkip else CAlloc (C "cconvert") ;; CAlloc (C "downsample") ;; CAlloc (C "prep")) ;;
   CAlloc (C "fdct") ;; CAlloc (C "entropy") ;; CAlloc (C "coef") ;; CAlloc (C "main") ;; CAlloc (C "marker") ;;
+  account OC ;;
   stage S_CSTART2.
 Definition start_compress (raw : bool) : cmd :=
   CIf (ENe (EG gsc) (EC cstate_start)) CRaise CSkip ;;
@@ -500,7 +519,7 @@ Definition start_compress (raw : bool) : cmd :=
 Definition write_icc : cmd := CIf (ENe (P "iccSize") (EC 0)) (CDeref (C "marker") ;; CObs "icc" (P "iccSize")) CSkip.
 Definition grow : cmd := CIf (EA "grow") (CDest DGrow (EG allocv)) CSkip.
 Definition finish_compress : cmd :=
-  stage S_CFINISH ;; grow ;; CDest DTerm (EG allocv) ;; CAbort OC.
+  stage S_CFINISH ;; grow ;; CDest DTerm (EG allocv) ;; abortc OC.
 Definition mem_dest (fx : fixes) : cmd :=
   CDest (DMemDest (fx2 fx)) (EG allocv) ;; stage S_MEMDEST.
 Definition caller_buffer : cmd :=
@@ -561,7 +580,7 @@ Definition prog_encode_yuv : prog :=
       CDeref (C "cconvert") ;; CDeref (C "downsample") ;;
       CObs "pixels" (EA "img") ;;
       CSet (C "next_scanline") (EA "h") ;;
-      CAbort OC).
+      abortc OC).
 
 (* --- tj3Transform (one transform) ------------------------------------------------ *)
 Definition copy_critical_parameters (fx : fixes) : cmd :=
@@ -601,6 +620,7 @@ Definition prog_transform (fx : fixes) (selfc : bool) : prog :=
       CAlloc (D "entropy") ;;
       CIf (EG (D "progressive_mode")) (CAlloc (D "coef_bits")) CSkip ;;
       CAlloc (D "coef") ;;
+      account OD ;;
       use_progress ;;
       CSet gsd (EC dstate_rdcoefs) ;;
       stage S_RDCOEF2 ;;
@@ -623,6 +643,7 @@ Definition prog_transform (fx : fixes) (selfc : bool) : prog :=
            observe_comp_params ;;
            master_control ;;
            CAlloc (C "entropy") ;; CAlloc (C "coef") ;; CAlloc (C "marker") ;;
+           account OC ;;
            CSet (C "next_scanline") (EC 0) ;;
            CSet gsc (EC cstate_wrcoefs) ;;
            CObs "copy_markers" (EIte (EA "copynone") (EC 0) (P "saveMarkers")) ;;
